@@ -143,6 +143,8 @@ def gen(rng, tier):
         yield Case("b38ecgen", [tx(ip), hx(seedb), c], "ec-gen-leading-zero")
         enc = with_urandom([seedb], lambda: Bip38EcKeysGenerator.GeneratePrivateKey(ip, mode(c)))
         yield Case("b38ecdec", [tx(enc), pf], "ec-dec-leading-zero")
+    # inputs on which a 16-byte block handled by AES has a padding-like tail (pinned no-EC inputs, searched seedb values)
+    yield from padlike_cases(rng, tier)
     # crafted ciphertexts (scrypt + AES by hand): a well-formed, correctly checksummed no-EC string whose decrypted payload is not a
     # private key (0, n, n + k, 2^256 - 1) with the address hash of payload mod n: only ValueError is an acceptable answer
     from Crypto.Cipher import AES
@@ -239,7 +241,9 @@ def relations(rng, tier, rpt):
     rpt.extra["ec_wrapper_checks"] = nw
     bad = bad[:5]
     bad += _ec_histories_against_the_standard(rng, tier, rpt)
-    return bad[:8]
+    bad = bad[:8]
+    bad += _padlike_blocks_against_the_standard(rng, tier, rpt)
+    return bad[:12]
 
 
 # ---- EC-multiplied mode recomputed from the text of BIP-38 (hashlib scrypt/SHA-256, pycryptodome AES, coincurve point arithmetic): nothing of
@@ -389,4 +393,191 @@ def _ec_histories_against_the_standard(rng, tier, rpt):
         n_hist += 1
     rpt.extra["ec_standard_histories"] = n_hist
     rpt.extra["ec_standard_history_observations"] = n_obs
+    return bad[:4]
+
+
+# ---- what the AES layer sees ---------------------------------------------------------------------------------------------------------
+# BIP-38 uses raw AES-256-ECB on exactly one 16-byte block at a time: every 16-byte value is a legitimate plaintext, also one that LOOKS like
+# padded data (last byte 01, or 02 02, … — PKCS#7; 80 00… — ISO 7816-4; 00… n — ANSI X.923). The block recovered by AES is
+# (key half XOR scrypt-derived half) resp. (seedb part XOR derived half), so whether it has such a tail depends on key, passphrase and mode
+# together (≈ 1 input in 85 for one of the three shapes): random inputs of a quick run never meet it.
+#  * no-EC: each candidate costs one scrypt(N=16384, r=8, p=8); the inputs were found by an off-line sweep over a counter (key =
+#    SHA-256(tag || counter), passphrase and mode from the counter's low bits). Only the counter is taken from the table: the blocks are recomputed
+#    with hashlib/coincurve on every run and the run stops with a harness error if they do not have the tail.
+#  * EC-multiplied: a candidate seedb costs one scrypt(N=1024, r=1, p=1), so they are searched on every run (PRNG-driven) with the
+#    reference below.
+_NOEC_TAG = b"verif-c13-noec"
+_NOEC_PASSES = ["TestingOneTwoThree", "\u03d2\u0301\x00\U00010400\U0001f4a9", "pass phrase \U0001f642", ""]
+NOEC_PADLIKE = []      # filled below: (counter, which block, shape)
+_PADLIKE_ITEMS = {}    # tier -> items chosen by gen() of this run, so that relations() looks at the same ones
+
+
+def _padlike_tails(blk):
+    out = []
+    v = blk[-1]
+    if 1 <= v <= 16 and blk[-v:] == bytes([v]) * v:
+        out.append("pkcs7-%d" % v)
+    if 2 <= v <= 16 and blk[-v:-1] == bytes(v - 1):
+        out.append("x923-%d" % v)
+    s = blk.rstrip(b"\x00")
+    if s and s[-1] == 0x80:
+        out.append("iso7816-%d" % (16 - len(s) + 1))
+    return out
+
+
+def _xor(a, b):
+    return bytes(x ^ y for x, y in zip(a, b))
+
+
+def _ref_addr_hash(pub):
+    import hashlib
+    h160 = hashlib.new("ripemd160", hashlib.sha256(pub).digest()).digest()
+    return _sha256d(_b58check(b"\x00" + h160).encode())[:4]
+
+
+def _noec_pinned(counter):
+    import hashlib
+    return hashlib.sha256(_NOEC_TAG + counter.to_bytes(8, "little")).digest(), bool(counter & 1), _NOEC_PASSES[(counter >> 1) % len(_NOEC_PASSES)]
+
+
+def _ref_noec_encrypt(key, passphrase, compressed):
+    """BIP-38 without EC multiplication -> (encrypted key string, the two 16-byte blocks AES encrypts = the blocks AES recovers on decryption)"""
+    import hashlib
+    from Crypto.Cipher import AES
+    ah = _ref_addr_hash(_ref_pub(key, compressed))
+    dk = hashlib.scrypt(unicodedata.normalize("NFC", passphrase).encode("utf-8"), salt=ah, n=16384, r=8, p=8, dklen=64, maxmem=64 * 1024 * 1024)
+    b1, b2 = _xor(key[:16], dk[:16]), _xor(key[16:], dk[16:32])
+    aes = AES.new(dk[32:], AES.MODE_ECB)
+    return _b58check(b"\x01\x42" + bytes([0xe0 if compressed else 0xc0]) + ah + aes.encrypt(b1) + aes.encrypt(b2)), b1, b2
+
+
+def _ref_ec_generate(code, seedb, compressed):
+    """BIP-38 EC-multiplied key from an intermediate code and the 24 random bytes seedb -> (encrypted key string, the two blocks AES encrypts)"""
+    import hashlib, coincurve
+    from Crypto.Cipher import AES
+    raw = _b58check_raw(code)
+    assert len(raw) == 49 and raw[:7] == bytes.fromhex("2ce9b3e1ff39e2") and raw[7] in (0x51, 0x53)
+    has_lot_seq, ent, passpoint = raw[7] == 0x51, raw[8:16], raw[16:49]
+    factorb = _sha256d(seedb)
+    pub = coincurve.PublicKey(passpoint).multiply(factorb).format(compressed=compressed)
+    ah = _ref_addr_hash(pub)
+    dk = hashlib.scrypt(passpoint, salt=ah + ent, n=1024, r=1, p=1, dklen=64)
+    aes = AES.new(dk[32:], AES.MODE_ECB)
+    b1 = _xor(seedb[:16], dk[:16])
+    e1 = aes.encrypt(b1)
+    b2 = _xor(e1[8:] + seedb[16:], dk[16:32])
+    e2 = aes.encrypt(b2)
+    flag = (0x20 if compressed else 0) | (0x04 if has_lot_seq else 0)
+    return _b58check(b"\x01\x43" + bytes([flag]) + ah + ent + e1[:8] + e2), b1, b2
+
+
+def padlike_items(rng, tier):
+    """[("noec", key, compressed, passphrase, enc, blocks) | ("ec", code, seedb, compressed, passphrase, enc, blocks)]: inputs for which a block
+    the AES layer handles has a padding-like tail (quick: two pinned no-EC inputs, one per block, and one searched EC input; thorough: all
+    pinned ones and 8 searched)"""
+    from harness.core import HarnessError
+    if tier in _PADLIKE_ITEMS:
+        return _PADLIKE_ITEMS[tier]
+    items = []
+    pins = list(NOEC_PADLIKE)
+    if tier == "quick":
+        first = [p for p in pins if p[1] == 1]
+        second = [p for p in pins if p[1] == 2]
+        pins = [first[rng.randrange(len(first))], second[rng.randrange(len(second))]]
+    for counter, blk, shape in pins:
+        key, compressed, p = _noec_pinned(counter)
+        enc, b1, b2 = _ref_noec_encrypt(key, p, compressed)
+        if shape not in _padlike_tails((b1, b2)[blk - 1]):
+            raise HarnessError("C13 pinned no-EC input %d: block %d recomputed as %s has no %s tail" % (counter, blk, (b1, b2)[blk - 1].hex(), shape))
+        items.append(("noec", key, compressed, p, enc, "block %d = %s (%s)" % (blk, (b1, b2)[blk - 1].hex(), shape)))
+    n_ec = 1 if tier == "quick" else 8
+    for j in range(n_ec):
+        p = PASSPHRASES[rng.randrange(len(PASSPHRASES))]
+        with_lot = bool((j + rng.randrange(2)) % 2)
+        lot, seq = (rng.randrange(1048576), rng.randrange(4096)) if with_lot else (None, None)
+        ent = bytes(rng.getrandbits(8) for _ in range(4)) + ((lot * 4096 + seq).to_bytes(4, "big") if with_lot else bytes(rng.getrandbits(8) for _ in range(4)))
+        code = _ref_intermediate(p, ent, with_lot)
+        compressed = bool(rng.randrange(2))
+        want_block = 1 + (j + rng.randrange(2)) % 2
+        head = bytes(rng.getrandbits(8) for _ in range(20))
+        for ctr in range(20000):
+            seedb = head[:10] + ctr.to_bytes(4, "big") + head[10:]
+            enc, b1, b2 = _ref_ec_generate(code, seedb, compressed)
+            tails = _padlike_tails((b1, b2)[want_block - 1])
+            if tails:
+                items.append(("ec", code, seedb, compressed, p, enc, "block %d = %s (%s)" % (want_block, (b1, b2)[want_block - 1].hex(), tails[0]), ent, with_lot))
+                break
+    _PADLIKE_ITEMS[tier] = items
+    return items
+
+
+def padlike_cases(rng, tier):
+    """the same inputs through the model: every one in the thorough tier, the EC decryption in the quick tier (each request costs the model a
+    full scrypt); relations() checks all of them against the hashlib/AES/coincurve reference in both tiers"""
+    for it in padlike_items(rng, tier):
+        if it[0] == "noec":
+            _k, key, compressed, p, enc, _what = it
+            if tier != "quick":
+                yield Case("b38noecenc", [hx(key), nfc_field(p), "1" if compressed else "0"], "noec-enc-padlike-block")
+                yield Case("b38noecdec", [tx(enc), nfc_field(p)], "noec-dec-padlike-block")
+        else:
+            _k, code, seedb, compressed, p, enc, _what, _ent, _with_lot = it
+            if tier != "quick":
+                yield Case("b38ecgen", [tx(code), hx(seedb), "1" if compressed else "0"], "ec-gen-padlike-block")
+            yield Case("b38ecdec", [tx(enc), nfc_field(p)], "ec-dec-padlike-block")
+
+
+def _padlike_blocks_against_the_standard(rng, tier, rpt):
+    """Encryption yields the standard's ciphertext and decryption with the same passphrase returns the key and mode (no-EC); an EC-multiplied key
+    generated from a code decrypts, with the owner's passphrase, to the valid key whose address hash it embeds — ALSO for the inputs on which a
+    16-byte block handled by AES has a padding-like tail. Expected values: BIP-38 recomputed with hashlib scrypt/SHA-256, pycryptodome's raw AES
+    and coincurve."""
+    bad = []
+
+    def rep(what, inp, got, want):
+        bad.append({"property": "C13", "entry_point": what, "request_lines": [], "relation": what, "input": inp,
+                    "impl_output": str(got), "model_output": str(want), "no_failing_input": False})
+
+    def call(f):
+        try:
+            return f()
+        except Exception as ex:  # noqa
+            return "raised %s: %s" % (type(ex).__name__, str(ex)[:100])
+
+    n = 0
+    for j, it in enumerate(padlike_items(rng, tier)):
+        if it[0] == "noec":
+            _k, key, compressed, p, enc, what = it
+            md = Bip38PubKeyModes.COMPRESSED if compressed else Bip38PubKeyModes.UNCOMPRESSED
+            n += 1
+            got = call(lambda: Bip38Decrypter.DecryptNoEc(enc, p))
+            if got != (key, md):
+                rep("Bip38Decrypter.DecryptNoEc with the passphrase the key was encrypted under does not return the key and mode (an AES block with a padding-like tail)",
+                    "key=%s compressed=%s passphrase=%r encrypted=%s; %s" % (key.hex(), compressed, p, enc, what),
+                    got if isinstance(got, str) else "%s %s" % (got[0].hex(), got[1]), "%s %s" % (key.hex(), md))
+            if tier != "quick" or j == 0:
+                n += 1
+                got = call(lambda: Bip38Encrypter.EncryptNoEc(key, p, md))
+                if got != enc:
+                    rep("Bip38Encrypter.EncryptNoEc is not the standard's ciphertext (an AES block with a padding-like tail)",
+                        "key=%s compressed=%s passphrase=%r; %s" % (key.hex(), compressed, p, what), got, enc)
+        else:
+            _k, code, seedb, compressed, p, enc, what, ent, with_lot = it
+            md = Bip38PubKeyModes.COMPRESSED if compressed else Bip38PubKeyModes.UNCOMPRESSED
+            n += 2
+            got = call(lambda: with_urandom([seedb], lambda: Bip38EcKeysGenerator.GeneratePrivateKey(code, md)))
+            if got != enc:
+                rep("Bip38EcKeysGenerator.GeneratePrivateKey is not the key BIP-38 defines for this code and seedb (an AES block with a padding-like tail)",
+                    "code=%s seedb=%s compressed=%s; %s" % (code, seedb.hex(), compressed, what), got, enc)
+            want = _ref_ec_decrypt(enc, p)
+            if want is None:
+                from harness.core import HarnessError
+                raise HarnessError("C13 reference: the EC key generated by the reference does not decrypt under the reference (%s)" % enc)
+            got = call(lambda: (lambda r: (r[0], r[1] == Bip38PubKeyModes.COMPRESSED))(Bip38Decrypter.DecryptEc(enc, p)))
+            if got != want:
+                rep("Bip38Decrypter.DecryptEc of a key generated for the owner's code, with the owner's passphrase, does not return the valid key whose address hash "
+                    "it embeds (an AES block with a padding-like tail)",
+                    "passphrase=%r owner_entropy=%s lot/sequence=%s code=%s seedb=%s encrypted=%s; %s" % (p, ent.hex(), with_lot, code, seedb.hex(), enc, what),
+                    got if isinstance(got, str) else "%s compressed=%s" % (got[0].hex(), got[1]), "%s compressed=%s" % (want[0].hex(), want[1]))
+    rpt.extra["aes_padlike_block_checks"] = n
     return bad[:4]
